@@ -230,7 +230,7 @@ def square_root_mod_prime(a, p):
             if ff[1]:
                 raise SquareRootError("p is not prime")
             return ff[0]
-    raise RuntimeError("No b found.")
+    raise SquareRootError("No b found, p is not prime")
 
 
 # because all the inverse_mod code is arch/environment specific, and coveralls
